@@ -50,12 +50,12 @@ def scratch_env():
     from taurex.cache import OpacityCache, CIACache, GlobalCache
     from taurex.cache.ktablecache import KTableCache
     from taurex.log.logger import root_logger
-    d = tempfile.mkdtemp(prefix='verif_c14_')
     gc = GlobalCache()
     saved_gc = dict(gc.variable_dict)
     oc, cc, kc = OpacityCache(), CIACache(), KTableCache()
     saved = (oc.opacity_dict, cc.cia_dict, cc._cia_path, kc.opacity_dict, kc._opacity_path, root_logger.level)
     root_logger.setLevel(logging.CRITICAL + 10)
+    d = tempfile.mkdtemp(prefix='verif_c14_')
     try:
         yield d
     finally:
